@@ -1,4 +1,5 @@
 """C10 — malformed OpenFlow input is contained to the offending connection (DESIGN §5 C10)."""
+import os
 import signal, socket, errno, random
 import common, poxenv, ofgen
 from common import Check
@@ -32,12 +33,16 @@ class cpu_budget:
         return False
 
 
+RX_ERRNO = {"reset": errno.ECONNRESET, "enoent": errno.ENOENT, "pipe": errno.EPIPE}
+
+
 class RSock:
     """scripted receive side; everything written is collected"""
     def __init__(self): self.chunks, self.sent = [], b""
     def recv(self, n, flags=0):
         if not self.chunks: raise socket.error(errno.EAGAIN, "EAGAIN")
         c = self.chunks.pop(0)
+        if isinstance(c, int): raise socket.error(c, os.strerror(c))      # scripted socket error (errno)
         assert len(c) <= n
         return c
     def send(self, d, flags=0): self.sent += bytes(d); return len(d)
@@ -81,7 +86,12 @@ class C10(Check):
     theorems = ["Pox.C10.ctl_terminates", "Pox.C10.sw_terminates", "Pox.C10.ctl_unguarded_spins", "Pox.C10.sw_contained",
                 "Pox.C10.siblings_untouched", "Pox.C10.ctl_no_overread", "Pox.C10.sw_no_overread",
                 "Pox.C10.ctl_disconnect_stops", "Pox.C10.ctl_no_disconnect_same"]
-    anchors = ()      # the CPU-time budget and the decoder recorders are this check's instrumentation; no line tracer here
+    anchors = [("pox/openflow/of_01.py", "Connection.read"), ("pox/openflow/of_01.py", "OpenFlow_01_Task.run"),
+               ("pox/datapaths/switch.py", "OFConnection.read"), ("pox/datapaths/switch.py", "OFConnection._error_handler"),
+               ("pox/datapaths/switch.py", "OFConnection._extract_message_xid"), ("pox/lib/ioworker/__init__.py", "RecocoIOLoop.run"),
+               ("pox/lib/ioworker/__init__.py", "IOWorker._do_recv"), ("pox/openflow/libopenflow_01.py", "_read"), ("pox/openflow/libopenflow_01.py", "_unpack"),
+               ("pox/openflow/libopenflow_01.py", "_skip"), ("pox/openflow/libopenflow_01.py", "_unpack_actions")]
+    coverage_cases = 10 ** 9      # every case runs under the line tracer (cheap here)
     design_ref = "DESIGN.md §5 C10"
     technique = ("Lean 4 proof over the two read-loop models with the decoders completely unconstrained (termination by a consumption bound, no escaping exception on the switch side, "
                  "sibling isolation, declared-length windows) + differential correspondence replaying the observed decoder behaviour through the model + mutation-stream oracle on the real code")
@@ -149,6 +159,21 @@ class C10(Check):
                         c = self._mk(rng, side, self._valid(rng), npre=2, npost=2, cuts=cuts)
                         seq = c["pre"] + [c["bad"]] + c["post"]
                         c["disc"] = [seq[k]]
+                        cases.append(c)
+            # a handler that raises on the k-th message: the message counts as processed, the loop and everything after it
+            # carry on exactly as if the handler had returned (both sides catch and log handler exceptions)
+            for k in range(5):
+                for cuts in ((), (9,), (30, 31)):
+                    c = self._mk(rng, side, self._valid(rng), npre=2, npost=2, cuts=cuts)
+                    seq = c["pre"] + [c["bad"]] + c["post"]
+                    c["hraise"] = [seq[k]] if k < 4 else seq
+                    cases.append(c)
+            # the peer goes away (end of stream, reset, broken pipe, ENOENT) before / between / inside / after messages
+            for kind in ("eof", "reset", "pipe", "enoent") + (("exc",) if side == "sw" else ()):
+                for after in range(0, 5):
+                    for cuts in ((), (9,), (12, 30), (5, 9, 40, 41)):
+                        c = self._mk(rng, side, self._valid(rng), npre=1, npost=2, cuts=cuts)
+                        c["rx"] = {"kind": kind, "after": after}
                         cases.append(c)
             # a wrong-version message as the very first data on a connection, arriving with only 4..7 of its bytes in the
             # first read (the bad-version path builds its reply from a partial header), and after valid traffic
@@ -258,9 +283,11 @@ class C10(Check):
         cons = [of_01.Connection(s) for s in socks]
         cons[0].unpackers = [wrap(u) for u in cons[0].unpackers]
         disc = set(case.get("disc", []))
+        hraise = set(case.get("hraise", []))
         def deliver_d(con, msg):
             deliver(con, msg)
             if delivered[-1] in disc: con.disconnect("handler gave up", defer_event=True)
+            if delivered[-1] in hraise: raise RuntimeError("scripted handler failure")
         cons[0].handlers = [deliver_d] * 256
         sib_del = [[], []]
         for k in (1, 2):
@@ -298,10 +325,18 @@ class C10(Check):
             return True
         counts = []
         sib_msgs = [[bytes.fromhex(x) for x in s] for s in case["sib"]]
+        rx, snap = case.get("rx"), {}
+        def inject():
+            # the peer closes / resets the connection: recv returns b"" or raises
+            snap.update(status_pre=("spin" if spin[0] else status(0)), buf_pre=bytes(cons[0].buf).hex())
+            feed(0, b"" if rx["kind"] == "eof" else RX_ERRNO[rx["kind"]])
+            snap["rx_status"] = "spin" if spin[0] else status(0)
         for n, ch in enumerate(chunks):
+            if rx and n == rx["after"]: inject()
             if feed(0, ch): counts.append(len(delivered))
             for k in (1, 2):
                 if n < len(sib_msgs[k - 1]): feed(k, sib_msgs[k - 1][n])
+        if rx and rx["after"] >= len(chunks): inject()
         for k in (1, 2):
             for m in sib_msgs[k - 1][len(chunks):]: feed(k, m)
         st0 = "spin" if spin[0] else status(0)
@@ -315,7 +350,7 @@ class C10(Check):
         if spin[0]: self.spins += 1
         return {"delivered": delivered, "counts": counts, "buf": bytes(cons[0].buf).hex() if st0 == "alive" else None, "status": st0,
                 "sib_status": sib_status, "sib_delivered": sib_del, "loop_alive": alive[0] or spin[0], "table": list(table.values()),
-                "splice": self._splice(objs), "chunks": [c.hex() for c in chunks], "replies": len(socks[0].sent)}
+                "splice": self._splice(objs), "chunks": [c.hex() for c in chunks], "replies": len(socks[0].sent), **snap}
 
     def _impl_sw(self, case):
         iow = self.iow
@@ -327,7 +362,11 @@ class C10(Check):
         workers = [loop.new_worker(s) for s in socks]
         ofcs = [self.OFConnection(w) for w in workers]
         ofcs[0].unpackers = [wrap(u) for u in ofcs[0].unpackers]
-        ofcs[0].set_message_handler(deliver)
+        hraise = set(case.get("hraise", []))
+        def deliver_h(con, msg):
+            deliver(con, msg)
+            if delivered[-1] in hraise: raise RuntimeError("scripted handler failure")
+        ofcs[0].set_message_handler(deliver_h)
         skips = []                                        # (reason, xid of the offending message) per skipped/refused message
         real_eh = ofcs[0]._error_handler
         def eh(reason, info):
@@ -361,10 +400,23 @@ class C10(Check):
             # head of its buffer) and its send side is shut down once flushed
             if workers[i] not in loop._workers or workers[i].closed or workers[i]._shutdown_send: return False
             socks[i].chunks.append(data); iteration([workers[i]]); return True
+        rx, snap = case.get("rx"), {}
+        def st_now():
+            return "spin" if state["spin"] else ("closed" if (workers[0] not in loop._workers or workers[0].closed or workers[0]._shutdown_send) else "alive")
+        def inject():
+            snap.update(status_pre=st_now(), buf_pre=bytes(workers[0].receive_buf).hex())
+            if rx["kind"] == "exc":                      # select reports an exceptional condition on the socket
+                try: g.send(([], [], [workers[0]]))
+                except StopIteration: alive[0] = False
+            else:
+                feed(0, b"" if rx["kind"] == "eof" else RX_ERRNO[rx["kind"]])
+            snap["rx_status"] = st_now()
         for n, ch in enumerate(chunks):
+            if rx and n == rx["after"]: inject()
             if feed(0, ch): counts.append(len(delivered))
             for k in (1, 2):
                 if n < len(sib_msgs[k - 1]): feed(k, sib_msgs[k - 1][n])
+        if rx and rx["after"] >= len(chunks): inject()
         for k in (1, 2):
             for m in sib_msgs[k - 1][len(chunks):]: feed(k, m)
         if state["spin"]: self.spins += 1
@@ -379,7 +431,7 @@ class C10(Check):
         return {"delivered": delivered, "counts": counts, "buf": bytes(workers[0].receive_buf).hex() if st == "alive" else None, "status": st,
                 "sib_status": ["closed" if (workers[k].closed or workers[k]._shutdown_send) else "alive" for k in (1, 2)], "sib_delivered": sib_del, "loop_alive": alive[0],
                 "table": list(table.values()), "splice": self._splice(objs), "chunks": [c.hex() for c in chunks], "replies": len(socks[0].sent),
-                "skips": skips, "errors": errs}
+                "skips": skips, "errors": errs, **snap}
 
     def _splice(self, objs):
         """does any delivered object depend on bytes outside its declared-length window?"""
@@ -403,8 +455,11 @@ class C10(Check):
         return {"side": case["side"], "chunks": obs["chunks"][:len(obs["counts"])], "table": obs["table"], "disc": case.get("disc", [])}
 
     def impl_view(self, case, obs):
-        v = {"delivered": obs["delivered"], "counts": obs["counts"], "status": obs["status"]}
-        if obs["status"] == "alive": v["buf"] = obs["buf"]
+        st, buf = obs["status"], obs["buf"]
+        if obs.get("rx_status") == "closed" and obs.get("status_pre") == "alive":
+            st, buf = "alive", obs["buf_pre"]          # the model is asked about the chunks read before the peer went away
+        v = {"delivered": obs["delivered"], "counts": obs["counts"], "status": st}
+        if st == "alive": v["buf"] = buf
         return v
 
     def model_obs(self, case, resp):
@@ -423,6 +478,12 @@ class C10(Check):
         for k in (0, 1):
             if obs["sib_status"][k] != "alive": return side + ": sibling connection %s" % obs["sib_status"][k]
             if obs["sib_delivered"][k] != case["sib"][k]: return side + ": sibling connection's messages changed or lost"
+        if case.get("rx") and "rx_status" in obs:
+            # end of stream / a socket error on ONE connection: that connection is closed (not crashed), the loop and the
+            # siblings carry on (checked above); ENOENT on the switch side is the documented "SSL does this sometimes" no-op
+            want = "alive" if (side == "sw" and case["rx"]["kind"] == "enoent" and obs["status_pre"] == "alive") else "closed"
+            if obs["status_pre"] == "alive" and obs["rx_status"] != want:
+                return side + ": after %s on the socket the connection is %s, expected %s" % (case["rx"]["kind"], obs["rx_status"], want)
         pre = case["pre"]
         if case.get("disc"):
             seq = case["pre"] + [case["bad"]] + case["post"]
@@ -430,7 +491,7 @@ class C10(Check):
             if obs["delivered"] != seq[:k + 1]: return "ctl: %d messages dispatched, expected exactly the %d up to the one whose handler disconnected" % (len(obs["delivered"]), k + 1)
             if obs["status"] == "alive" and len(obs["delivered"]) < len(seq) and obs["buf"] == "": return "ctl: input after the disconnect was consumed"
             return None
-        if obs["delivered"][:len(pre)] != pre: return side + ": valid messages before the malformed bytes were not delivered"
+        if obs["delivered"][:len(pre)] != pre and not case.get("rx"): return side + ": valid messages before the malformed bytes were not delivered"
         if obs["splice"]: return side + ": " + obs["splice"]
         if side == "sw":
             # "either the bytes are answered with an error and skipped or that one connection is closed":
@@ -438,7 +499,8 @@ class C10(Check):
             # must have been answered with OFPET_BAD_REQUEST and the matching code, carrying the message's xid
             want = [[1, {2: 1, 3: 6}[r], x] for r, x in obs.get("skips", []) if r in (2, 3)]
             got = [e for e in obs.get("errors", []) if e[0] == 1 and e[1] in (1, 6)]
-            silent = [r for r, x in obs.get("skips", []) if r not in (1, 2, 3)]
+            # reason 4 = the message handler raised AFTER the message was decoded and consumed; only a scripted handler does
+            silent = [r for r, x in obs.get("skips", []) if r not in (1, 2, 3) and not (r == 4 and case.get("hraise"))]
             if silent and obs["status"] == "alive": return "sw: message skipped without an error reply (handler reason %d)" % silent[0]
             if want != got: return "sw: skipped messages %s but error replies %s" % (want[:3], got[:3])
         return None
